@@ -5,6 +5,11 @@ from vlib import *
 import lint_lib as L
 
 PROPS = "Props/C29"
+# A field appended under a free mask bit whose NAME equals a non-namespaced type name mentioned by an old field of the
+# same combinator (`int`, `t1`) is refused by the real linter although nothing changes on the wire (finding, see the
+# refutation theorem C29_refuted_field_named_like_type).  Flip to True once it is registered in known_findings.json
+# under the sig prefix "C29:field-named-like-unqualified-type".
+REPORT_NAME_COLLISION = True
 FAMILY = "lint"
 
 
@@ -41,6 +46,18 @@ def gen_ops(ctx):
         if ks:
             pairs.append((s.tl(), new.tl()))
             kinds.append("safe:" + ks[0] if len(set(ks)) == 1 else f"safe:mixed-seq{len(ks)}")
+    # appended field names that collide with pieces of type names the combinator mentions
+    for i in range(40 if quick else 500):
+        s = L.Gen(rng).schema(ntypes=rng.randrange(1, 5), nfuns=rng.randrange(0, 3), namespaced=True)
+        if i % 5 == 4:
+            new = L.unqualified_collision_edit(rng, s)
+            k = "namecoll:unqualified-type-name"
+        else:
+            new = L.name_collision_edit(rng, s)
+            k = "safe:field-named-like-namespaced-type"
+        if new is not None:
+            pairs.append((s.tl(), new.tl()))
+            kinds.append(k)
     for (o, p), k in zip(L.write_pairs(ctx, pairs), kinds):
         items.append((k, "pair", o, p, None))
     ops, go, dropped = L.build_lint_ops(ctx, items, variant)
@@ -79,6 +96,14 @@ def oracle(ctx, ops, go_out):
     bad = []
     idx = {id(o): g for o, g in zip(ops, go_out)}
     for (op, kind, data), out in zip(ops, go_out):
+        if kind.startswith("namecoll:"):
+            # Wire-safe, yet the real linter (unchanged tree) refuses it: the old field's type name is looked up among
+            # the NEW combinator's field names.  Reported to the coordinator as a finding of C29; until it is listed
+            # in known_findings.json the acceptance requirement is not applied to this class (REPORT_NAME_COLLISION),
+            # the correspondence with the model (which reproduces the refusal) is.
+            if REPORT_NAME_COLLISION and out != "accept":
+                bad.append((replay_text(data), kind, out, "C29:field-named-like-unqualified-type:" + out.replace(" ", ":")))
+            continue
         if out != "accept":
             k = kind if kind.startswith("sample") else kind.split(":")[0] + ":" + (kind.split(":")[1] if ":" in kind else "")
             bad.append((replay_text(data), kind, out, f"C29:not-accepted:{k}:{out.replace(' ', ':')}"))
